@@ -46,8 +46,9 @@ Outcomes(p) == {o \in AllOutcomes(p) : o[1] \in OutSet}
 Ages(p) == CASE p = Candidate -> {0} [] p = Newbie -> {1, 2, 3} [] p = Verified -> {2, 3} [] OTHER -> {3}
 \* only identities that had to make flips have flips
 Flips(p) == IF p \in {Newbie, Verified, Human} THEN {<<g, r, q>> : g \in GoodSet, r \in RepSet, q \in NqSet} ELSE {<<0, 0, 0>>}
-\* an identity that was validated before has earned stake; zero stake is for candidates and for suspended / zombie ones
-Stakes(p, a) == IF a = 0 \/ p \in {Suspended, Zombie} THEN StakeSet ELSE StakeSet \ {0}
+\* an identity that was validated before has earned stake; zero stake is for candidates, for suspended / zombie ones and for
+\* an old identity that came back from suspension at the last validation (it was rewarded in no epoch of the history)
+Stakes(p, a) == IF a = 0 \/ p \in {Suspended, Zombie} \/ (p = Verified /\ a = 3) THEN StakeSet ELSE StakeSet \ {0}
 
 ProfilesOf(p, a) == {[prev |-> p, new |-> o[1], missed |-> o[2], age |-> a, stake |-> s, deleg |-> d, good |-> f[1], rep |-> f[2], nq |-> f[3]] :
                         o \in Outcomes(p), s \in Stakes(p, a), d \in DelegSet, f \in Flips(p)}
@@ -55,7 +56,7 @@ Profiles == UNION {UNION {ProfilesOf(p, a) : a \in Ages(p)} : p \in PrevSet}
 
 \* who can have invited j: the god address, or an old identity that was Verified / Human in the epoch of the invitation
 \* (it is at most Suspended one epoch later and Zombie two epochs later); an inviter has one invitation per epoch
-CanInvite(i, j) == /\ i # j /\ prof[i].age = 3
+CanInvite(i, j) == /\ i # j /\ prof[i].age = 3 /\ prof[i].stake > 0       \* it was validated (and rewarded) when it invited
                    /\ prof[i].prev \in (CASE prof[j].age = 0 -> {Verified, Human}
                                           [] prof[j].age = 1 -> {Verified, Human, Suspended}
                                           [] OTHER           -> {Verified, Human, Suspended, Zombie})
